@@ -401,8 +401,15 @@ func c06e(c *Ctx) {
 		// its result is written to the output
 		written := false
 		for _, ws := range c.sitesOf(fn) {
-			if ws.arg == calls[0].(ssa.Value) {
-				written = true
+			if ws.arg == nil {
+				continue
+			}
+			var leaves []ssa.Value
+			phiLeaves(ws.arg, map[ssa.Value]bool{}, &leaves)
+			for _, lf := range leaves {
+				if lf == calls[0].(ssa.Value) {
+					written = true
+				}
 			}
 		}
 		if ok && !written {
@@ -415,14 +422,24 @@ func c06e(c *Ctx) {
 	okM := len(mcalls) == 1 && strings.HasPrefix(c.term(fn, mcalls[0].Common().Args[1]), "assert<*ast.MovementStatement>(")
 	c.Check(okM, "Emit/movements-dispatched", c.W.FuncPos(fn), "movement statements (explicit and hoisted) are dispatched to the movement emitter", "Emit does not dispatch *ast.MovementStatement to emitMovementStatement")
 	// every handled top-level type: output written
-	nW := 0
+	// (a shared `sb.WriteString(output)` after a type switch writes every alternative of output)
+	written := map[ssa.Value]bool{}
 	for _, ws := range c.sitesOf(fn) {
-		if _, isCall := ws.arg.(*ssa.Call); isCall {
-			nW++
-		} else if _, isEx := ws.arg.(*ssa.Extract); isEx {
-			nW++
+		if ws.arg == nil {
+			continue
+		}
+		var leaves []ssa.Value
+		phiLeaves(ws.arg, map[ssa.Value]bool{}, &leaves)
+		for _, lf := range leaves {
+			if ex, isEx := lf.(*ssa.Extract); isEx {
+				lf = ex.Tuple
+			}
+			if call, isCall := lf.(*ssa.Call); isCall && callee(call) != nil && c.W.InRepo(callee(call)) {
+				written[call] = true
+			}
 		}
 	}
+	nW := len(written)
 	c.Check(nW >= 6, "Emit/outputs-written", c.W.FuncPos(fn), "the output of every statement emitter is appended", fmt.Sprintf("only %d emitter results are written to the output, expected 6", nW))
 }
 
